@@ -529,7 +529,7 @@ Definition reaches_rib (fixed : bool) (u : update) : bool :=
   fixed || negb (ahas (u_attrs u) CODE_DISCARD).
 
 (* Adj-RIB-In keyed by the NLRI index: (key, (nlri, next hop, attributes)).
-   UpdateHandler: announces stored first, then withdraws removed. *)
+   UpdateHandler: one loop stores the announces, one removes the withdraws; their order is probed from the source. *)
 Definition rib := list (list Z * (nlri * list Z * amap)).
 
 Definition rib_key (n : nlri) : list Z :=
@@ -545,11 +545,16 @@ Fixpoint rib_set (r : rib) (k : list Z) (v : nlri * list Z * amap) : rib :=
   end.
 Definition rib_del (r : rib) (k : list Z) : rib := filter (fun e => negb (list_eqb k (fst e))) r.
 
-Definition ribin_apply (fixed : bool) (r : rib) (u : update) : rib :=
+(* wfirst: the withdraws of the UPDATE are applied before its announces (the order of the two loops of
+   UpdateHandler.handle / handle_async, read from the source by T5: Gen_AttrTable.RIBIN_WITHDRAW_FIRST) *)
+Definition ribin_apply_gen (wfirst fixed : bool) (r : rib) (u : update) : rib :=
   if reaches_rib fixed u then
-    let r1 := fold_left (fun acc a => rib_set acc (rib_key (fst a)) (fst a, snd a, u_attrs u)) (u_ann u) r in
-    fold_left (fun acc n => rib_del acc (rib_key n)) (u_wd u) r1
+    let store (x : rib) := fold_left (fun acc a => rib_set acc (rib_key (fst a)) (fst a, snd a, u_attrs u)) (u_ann u) x in
+    let remove (x : rib) := fold_left (fun acc n => rib_del acc (rib_key n)) (u_wd u) x in
+    if wfirst then store (remove r) else remove (store r)
   else r.
+
+Definition ribin_apply (fixed : bool) (r : rib) (u : update) : rib := ribin_apply_gen RIBIN_WITHDRAW_FIRST fixed r u.
 
 (* ------------------------------------------------------------------ flat observation for the harness *)
 
